@@ -57,7 +57,7 @@ func (c *Max) Exclusive() bool {
 }
 
 func (c Max) Validate(value bytes.Bytes) {
-	jsonNumber, err := json.NewNumber(value)
+	jsonNumber, err := json.ParseNumber(value)
 	if err != nil {
 		panic(err)
 	}
